@@ -662,4 +662,10 @@ example : sortImports [.imp false [exB], .imp true [exB, exA], .other, .imp true
     [.imp false [exB], .imp true [{ exA with line := 2, endLine := 2 }, { exB with line := 3, endLine := 3 }],
      .other, .imp true [exB, exA]] := by decide
 
+/-- Hypotheses of `C23_commented_kept` / `C23_runs_sorted` are satisfiable. -/
+example : exAc ∈ [exB, exA, exA2, exAc, exD, exC] ∧ exAc.comment ≠ none := by decide
+example : 1 < [exB, exA, exA2, exAc].length := by decide
+example : SortedByPath (sortRun [exB, exA, exA2, exAc]) := by
+  unfold SortedByPath; decide
+
 end GopModel.ImportSort
